@@ -568,6 +568,25 @@ pub fn check(case: &Case, idx: u64, acc: &mut Acc) {
                         return;
                     }
                 }
+                // switches between first and second order keep the variable names already present - literally, also a
+                // name whose sensitivity is zero
+                if !switches[..step].contains(&0) {
+                    for (obj, which) in [(&subj, "permuted"), (&twin, "twin")] {
+                        for (k, (_, x)) in obj.nodes().iter().enumerate() {
+                            acc.eval();
+                            let mut have: Vec<String> = match x {
+                                Number::F64(_) => vec![],
+                                Number::Dual(d) => d.vars().iter().cloned().collect(),
+                                Number::Dual2(d) => d.vars().iter().cloned().collect(),
+                            };
+                            have.sort();
+                            if have != names {
+                                acc.violate("permuted-vars/node-lost-or-gained-a-name", idx, cj(), json!({"node": k, "curve": which, "after_switches": &switches[..step], "want": names}), json!(have));
+                                return;
+                            }
+                        }
+                    }
+                }
                 for ((_, x), (_, y)) in subj.nodes().iter().zip(twin.nodes().iter()) {
                     acc.eval();
                     let (kx, ky) = (by_name(x), by_name(y));
